@@ -309,14 +309,20 @@ def _raised_in_library(exc):
     depth = 0
     last_lib = None
     last_harness = -1
+    n_lib = n_harness = 0
     while tb is not None:
         fn = os.path.realpath(tb.tb_frame.f_code.co_filename)
         if fn.startswith(prefix):
             last_lib = (depth, fn, tb.tb_lineno)
+            n_lib += 1
         elif fn.startswith(harness) or "/refpy/" in fn:
             last_harness = depth
+            n_harness += 1
         depth += 1
         tb = tb.tb_next
+    if isinstance(exc, RecursionError) and last_lib is not None and n_lib >= 100 and n_lib > 4 * n_harness:
+        # the stack was used up by library frames; which callee happened to hit the limit says nothing
+        last_harness = -1
     if last_lib is None or last_harness > last_lib[0]:
         return None
     return f"{os.path.relpath(last_lib[1], os.path.dirname(prefix.rstrip(os.sep)))}:{last_lib[2]}"
